@@ -8,7 +8,7 @@
    (rows in arrival order; arrival as an exact decimal num/den; what each tick delivered).
 
    Float band (none for on-grid decimals): only an arrival that is NOT on a tick boundary but within
-   1e-9 (relative) above one may also be delivered at that boundary's tick.                          *)
+   1e-12 (relative) above one may also be delivered at that boundary's tick.                          *)
 EXTENDS Integers, Sequences, FiniteSets, TLC, BigNat
 
 (* ---------------- exact arrival tick: certificate T is checked, never computed by division ---------------- *)
@@ -20,7 +20,9 @@ CeilOK(T, num, den, tps) ==
   /\ BNLe(BNMul(num, I(tps)), BNMul(I(T), den))
   /\ (T = 0 \/ BNLt(BNMul(I(T - 1), den), BNMul(num, I(tps))))
 OnGrid(T, num, den, tps) == BNCmp(BNMul(num, I(tps)), BNMul(I(T), den)) = 0
-\* off the grid but within 1e-9 (relative) above the previous boundary T-1:  0 < num*tps - (T-1)*den <= 1e-9 * (T-1)*den
+\* off the grid but within float rounding (1e-12 relative; a double carries 1.1e-16) above the previous boundary T-1:
+\* 0 < num*tps - (T-1)*den <= 1e-12 * (T-1)*den
+E12 == <<0, 0, 0, 1>>
 NearlyPrev(T, num, den, tps) ==
-  T >= 2 /\ BNLe(BNMul(BNMul(num, I(tps)), I(1000000000)), BNMul(BNMul(I(T - 1), den), I(1000000001)))
+  T >= 2 /\ BNLe(BNMul(BNMul(num, I(tps)), E12), BNMul(BNMul(I(T - 1), den), BNAdd(E12, <<1>>)))
 =============================================================================
